@@ -642,8 +642,22 @@ class CSSFunction(Value):
                              )
         return funcProds
 
+    def _nestingDepth(self):
+        "number of functions this one is nested in"
+        depth, parent = 0, self.parent
+        while isinstance(parent, CSSFunction):
+            depth += 1
+            parent = parent.parent
+        return depth
+
     def _setCssText(self, cssText):
         self._checkReadonly()
+        if self._nestingDepth() >= 30:
+            # (every level costs some frames of the Python stack: refuse
+            # instead of running into RecursionError)
+            self._log.error('%s: Functions nested too deep.' % self.type)
+            self.wellformed = False
+            return
         ok, seq, store, unused = ProdParser().parse(cssText,
                                                     self.type,
                                                     self._productions())
